@@ -9,14 +9,14 @@ CHECKS = {
    note="Trusted base: the Rust API as comparison partner (itself checked by C01-C12), refsem authorizer. The CLI is built from /repo by the check (dev profile) into /verif/target/cli. Messages of input-assembly failures are not compared. cedar-wasm is not covered (re-exports).",
    design="§3 C19, §8"),
  "C20": dict(
-   technique="bounded-exhaustive sweeps in child processes: all token sequences <=3/4 over Cedar policy and schema token alphabets spliced into 4-5 positions, all byte strings <=2 (quick: a stated cut), string-escape and extension-value strings, nesting generators to depth 48, every single (thorough: pairs of) structural mutation of 17 JSON seed documents, byte substitutions/deletions/prefixes of text and protobuf seeds, into 77 entry points; every Ok object continues down the whole pipeline and every error is rendered; oracle = returns and terminates",
+   technique="bounded-exhaustive sweeps in child processes: all token sequences <=3/4 over Cedar policy and schema token alphabets spliced into 4-5 positions, all byte strings <=2 (quick: a stated cut), string-escape and extension-value strings, nesting generators to depth 48, every single (thorough: pairs of) structural mutation of 17 JSON seed documents, a grid of extension calls in every JSON spelling x every function x 0-3 arguments, byte substitutions/deletions/prefixes of text and protobuf seeds, into 77 entry points; every Ok object continues down the whole pipeline and every error is rendered; oracle = returns and terminates",
    text="Model checking in the small-scope sense for a safety property (no panic / abort / non-termination): the complete space of short inputs over small alphabets plus single-deviation mutations of valid documents is fed to every public entry point under catch_unwind in sharded child processes (so aborts and stack overflows are attributed to one input), every accepted object is pushed through print / to_json / to_pst / format / validate (strict, permissive, levels) / authorize / partial / TPE / batched / manifest / link / merge / protobuf, and every error or warning is rendered with Display, Debug, the miette graphical handler and ffi::DetailedError.",
-   note="Trusted base: the child-process watchdog (non-termination = >10 s CPU when re-run alone). Bounded sweep, not a fuzzer: inputs longer than the bounds appear only as mutations of seed documents; nesting depth <= 48 as the property states.",
+   note="Trusted base: the child-process watchdog (non-termination = >10 s CPU when re-run alone). Bounded sweep, not a fuzzer: inputs longer than the bounds appear only as mutations of seed documents; nesting depth <= 48 as the property states. Findings: F8 (EST printer indexed args[0], fixed in /repo) and F9 (protobuf encode of an unknown panics with unimplemented!, known finding listed per entry point).",
    design="§3 C20, §8"),
  "C14": dict(
-   technique="bounded-exhaustive enumeration of (strictly valid policy set x partial view x consistent completion): partial views are obtained by erasing parts (principal/resource id, context, per-entity attrs/ancestors/tags/existence) of concrete environments; TPE by the real code; every concrete environment that the library's own consistency checks accept is a completion and is evaluated by the real concrete evaluator; permission queries compared with brute force",
+   technique="bounded-exhaustive enumeration of (strictly valid policy set x partial view x consistent completion): partial views are obtained by erasing parts (principal/resource id, context, per-entity attrs/ancestors/tags/existence; ancestor sets given closed or as direct parents only) of concrete environments; policies = type-directed C03 family + hand-written TPE stressors + compositional families (error-capable operand x container kind x known operand; entity mentioned at exactly one operand position; has over request-entity attributes); TPE by the real code; every concrete environment that the library's own consistency checks accept is a completion and is evaluated by the real concrete evaluator; permission queries compared with brute force",
    text="Model checking in the small-scope sense: for every policy set and every partial view of the bounded space, all consistent concrete completions are enumerated; definite decisions must equal the concrete decision on each, each residual policy must be satisfied/unsatisfied/erroring exactly when its original is, all views of the response (policies, policy_set, get_policy, residual_policies, reauthorize) must present the same residuals, and query_resource/query_principal/query_action must equal brute-force authorization over the store. Soundness of residual simplifications quantifies over completions, which shape assertions cannot discharge but enumeration can.",
-   note="Trusted base: the real concrete evaluator/authorizer (checked in C01/C02), the library's check_consistency as the definition of 'consistent'. Finding F1 (policy_set returned originals) was reproduced by this check and repaired by a fix: commit in /repo.",
+   note="Trusted base: the real concrete evaluator/authorizer (checked in C01/C02), the library's check_consistency as the definition of 'consistent'. Finding F1 (policy_set returned originals) was reproduced by this check and repaired by a fix: commit in /repo. The policy family is shared with C15 and C18.",
    design="§3 C14, §8"),
  "C04": dict(
    technique="explicit-state BFS (stateright) to fixpoint over cedar_policy::Entities histories (add/upsert/remove with all batches of size 1 and ordered size 2 over 3-4 uids incl. self and dangling parents), every transition executed on the real store in lock-step with a parent-graph reference model; plus exhaustive from_entities over all parent graphs x insertion orders and all 2^9 x 2^9 hand-built stores for EnforceAlreadyComputed",
@@ -49,24 +49,24 @@ CHECKS = {
    note="Trusted base: the harness tokenizer/comment scanner (self-checked: must find exactly the inserted comments), bind::abs_expr. Strings inside expressions use a small alphabet (the large content alphabet is C05's).",
    design="§3 C12, §8"),
  "C13": dict(
-   technique="bounded-exhaustive enumeration of (unknown kind x policy set x substitution): 9 kinds of unknown input, policy bodies placing an unknown-touching operand against constant/erroring operands in 16 shapes, all substitutions from small typed domains; partial authorization by the real code compared with authorizing the substituted concrete inputs (real and reference authorizer)",
+   technique="bounded-exhaustive enumeration of (unknown kind x policy set x substitution): 10 kinds of unknown input (incl. an unknown reached only through another unknown, and a partial store whose omitted entity is completed in 8 shapes), policy bodies placing an unknown-touching operand (every operator kind applied to the untyped unknown) against constant/erroring operands in 19 shapes, all substitutions from small typed domains; partial authorization by the real code compared with authorizing the substituted concrete inputs (real and reference authorizer)",
    text="Model checking in the small-scope sense: soundness of partial evaluation relates a residual to every completion of the unknowns; the check enumerates every substitution from finite domains for every policy set of the bounded space and compares definite decisions, must/may-be-determining sets, definitely satisfied/errored/trivially false policies and reauthorize results with the concrete response computed from scratch.",
-   note="Trusted base: reference authorizer (cross-checks the concrete side). Substitution domains have 3-5 values per unknown; wrong-type values only for untyped unknowns.",
+   note="Trusted base: reference authorizer (cross-checks the concrete side). Substitution domains have 3-13 values per unknown (for the untyped context attribute: every value kind); wrong-type values only for untyped unknowns.",
    design="§3 C13, §8"),
  "C15": dict(
    technique="bounded-exhaustive enumeration of (valid policy set x conformant environment x loader answer policy x iteration budget 0..n+1) with the loader call log checked as the trace; batched authorization by the real code compared with ordinary authorization",
    text="Model checking of the loader/budget state machine: for every policy set and environment of the bounded space, every budget from 0 up to the first decision, the next one and n+1 is run against an exact and a generous loader; any decision must equal ordinary authorization, errors must be insufficient-iterations only, decisions must be monotone in the budget, budget n+1 must decide, and the loader must never be asked for the same uid twice or more often than the budget.",
-   note="Trusted base: ordinary Authorizer (itself checked in C01/C02). The generous loader never repeats an entity (see DESIGN §8.2). Budgets between first+1 and n+1 are skipped.",
+   note="Trusted base: ordinary Authorizer (itself checked in C01/C02). The generous loader hands out ancestors again on every call (finding F5, fixed). Budgets between first+1 and n+1 are skipped. Policy family shared with C14; requests include a resource no store holds.",
    design="§3 C15, §8"),
  "C16": dict(
-   technique="bounded-exhaustive enumeration of dereference-chain policies (all entity-valued access paths <=2/3 steps x terminal observation x wrappers) validated at levels 0..5 by the real validator; for each level the accepted set is authorized on every conformant (store, request) over the full store vs the level-n slice built from the definition",
+   technique="bounded-exhaustive enumeration of dereference-chain policies (all entity-valued access paths <=2/3 steps x terminal observation x wrappers) validated at levels 0..5 by the real validator in strict AND permissive mode (incl. shapes only permissive validation accepts and an action hierarchy with literals of the own / another action); for each mode and level the accepted set is authorized on every conformant (store, request) over the full store vs the level-n slice built from the definition",
    text="Model checking in the small-scope sense: sufficiency of the level-n slice is checked by actually building the slice from its definition and re-authorizing, for every policy accepted at level n and every store/request of the bounded universe (entities present/absent along the chains); monotonicity in n is checked on every policy. An under-count in the level checker (record literal, if-branch, `in`, tags) shows up as a different response on the slice.",
    note="Trusted base: lvl.rs::level_slice (RFC-76 reading: level 0 loads nothing). Evidence reports how many policies have a tight minimal level (oracle has teeth).",
    design="§3 C16, §8"),
  "C17": dict(
-   technique="bounded-exhaustive enumeration of the C16 policy family (singles and pairs): compute_entity_manifest, then slice_entities on every conformant (store, request) and authorization on slice vs full store",
+   technique="bounded-exhaustive enumeration of the C16 policy family (singles and pairs; attribute chains through User / Group / Doc typed attributes, sets of entities, tags with computed keys, entity and action literals): compute_entity_manifest, then slice_entities on every conformant (store, request) and authorization on slice vs full store",
    text="Model checking in the small-scope sense: for every strictly valid policy set of the bounded family for which a manifest is computed, and every store/request of the bounded universe, the store is sliced by the real slicing code and authorization on the slice must equal authorization on the full store (decision, determining and erroring policies).",
-   note="Trusted base: the real authorizer as comparison partner. A refusal of compute_entity_manifest (e.g. tags) is not a violation. The entity-manifest feature is compiled in by the harness (the baseline suite does not).",
+   note="Trusted base: the real authorizer as comparison partner. A refusal of compute_entity_manifest (e.g. tags) is not a violation. The entity-manifest feature is compiled in by the harness (the baseline suite does not). The full store holds the schema's action entities. Finding F7 (irrelevant policies got an empty manifest) was found by this check and repaired by a fix: commit in /repo.",
    design="§3 C17, §8"),
  "C18": dict(
    technique="bounded-exhaustive enumeration of (strictly valid policy / policy pair / policy set / set pair x conformant concrete environment): SymEnv::from_concrete_env + compile_with_custom_symenv by the real code, asserts must be literals and all-true must coincide with the concrete evaluator/authorizer verdict",
@@ -74,7 +74,7 @@ CHECKS = {
    note="Trusted base: real evaluator/authorizer for the concrete side (checked in C01/C02). Says nothing about non-literal terms or the SMT encoding.",
    design="§3 C18, §8"),
  "C03": dict(
-   technique="bounded-exhaustive enumeration of policies over a schema vocabulary (type-directed must-accept set, guard x access x shape grid, all depth-1/2 operator applications over 41 typed atoms, several action scopes); each is validated by the real validator and every accepted one is evaluated by the real evaluator on every conformant (request, store) of a small universe, with a typed-AST walk checking value-in-static-type at every reached sub-expression",
+   technique="bounded-exhaustive enumeration of policies over a schema vocabulary (type-directed must-accept set, guard x access x shape grid, all depth-1/2 operator applications over 41 typed atoms, several action scopes; plus a self-contained world of actions whose group lives in another namespace); each is validated by the real validator and every accepted one is evaluated by the real evaluator on every conformant (request, store) of a small universe, with a typed-AST walk checking value-in-static-type at every reached sub-expression",
    text="Model checking in the small-scope sense over three nested finite spaces (programs x request environments x conformant stores): soundness is checked by actually evaluating every strictly accepted policy on every environment the library's own validation accepts (error classes, impossible-policy warnings, value inhabits static type at each reached node, strict=>permissive), and non-vacuity by requiring acceptance of a type-directed set of documented guard patterns. This is the level that can see an unsound acceptance (capability leak, optional treated as required, wrong singleton bool type), which per-expression typing tests cannot.",
    note="Trusted base: schema.rs generators and conformance oracle, refsem evaluator (cross-checked against the real evaluator on every case), val_in_type. Members of proper entity LUBs are not observable via public API (none arise in strict mode). Templates are covered through 600 template+link candidates (slots in ==, in, is..in scope positions), without the typed-AST walk. Quick: ~30k candidate policies x ~4k environments.",
    design="§3 C03"),
